@@ -1,7 +1,7 @@
 (* C07 — A seeded run is reproducible. *)
 From Coq Require Import String List Bool Arith.
 From PV Require Import Skeleton Lifecycle Lifecycle_proofs Loop.
-From PVGen Require Import Algos Expected GenSchema GenSeed.
+From PVGen Require Import Algos Expected GenSchema GenSeed GenHyper.
 From PVBridge Require Import AlgoBridge LifeMain LoopBridge.
 
 (* optimize() seeds numpy's stream from the task before anything draws (regenerated schema), and Task.seed is an integer field *)
@@ -18,6 +18,11 @@ Proof. exact result_depends_on_inputs_only. Qed.
 Theorem C07_no_known_exception : known_entropy = nil.
 Proof. reflexivity. Qed.
 
+(* "in the same or in different processes": nowhere in the package is the iteration order of a set observed without sorted() (sets of integers cut from a range
+   excepted) - that order depends on the interpreter's per-process string-hash seed, an entropy source outside the task's seed (regenerated scan of all modules) *)
+Theorem C07_no_hash_ordered_iteration : gen_no_hash_ordered_iteration = true.
+Proof. reflexivity. Qed.
+
 (* an unseeded entropy read would let two equal-seed runs differ (why the fact is needed) *)
 Theorem C07_entropy_admits_difference : forall value (v1 v2 : value), v1 <> v2 ->
   exists (o : op loc value) (s1 s2 : store loc value), s1 LIn = s2 LIn /\ s1 LG = s2 LG /\ s1 LState = s2 LState /\
@@ -25,5 +30,6 @@ Theorem C07_entropy_admits_difference : forall value (v1 v2 : value), v1 <> v2 -
 Proof. exact entropy_admits_difference. Qed.
 
 Print Assumptions C07_seeded_first.
+Print Assumptions C07_no_hash_ordered_iteration.
 Print Assumptions C07_reproducible.
 Print Assumptions C07_entropy_admits_difference.
